@@ -1975,6 +1975,30 @@ func checkRunEventsDrain(p *core.Prog, r *core.Result) {
 // isNewlineSep: v is the one-byte separator "\n" as a []byte: []byte{'\n'}, []byte("\n") or a slice of such an array.
 func isNewlineSep(v ssa.Value) bool {
 	v = core.Unwrap(v)
+	// a package-level separator (var lineSeparator = []byte{'\n'}): every store to it, anywhere in its package, stores a
+	// newline separator
+	if ld, ok := v.(*ssa.UnOp); ok && ld.Op == token.MUL {
+		if g, isGlobal := ld.X.(*ssa.Global); isGlobal && g.Pkg != nil {
+			n, all := 0, true
+			for _, m := range g.Pkg.Members {
+				fn, isFn := m.(*ssa.Function)
+				if !isFn {
+					continue
+				}
+				for _, f := range core.WithAnons(fn) {
+					core.Instrs(f, func(in ssa.Instruction) {
+						if st, isSt := in.(*ssa.Store); isSt && st.Addr == ssa.Value(g) {
+							n++
+							if !isNewlineSep(st.Val) {
+								all = false
+							}
+						}
+					})
+				}
+			}
+			return n > 0 && all
+		}
+	}
 	if cv, ok := v.(*ssa.Convert); ok {
 		s, ok := core.ConstString(cv.X)
 		return ok && s == "\n"
